@@ -99,7 +99,15 @@ def handle (op : String) (j : Json) : Except String Json := do
     let tm := parts.foldl (fun acc p => add4 acc p.1) (0, 0, 0, 0)
     let ts := parts.foldl (fun acc p => add4 acc p.2) (0, 0, 0, 0)
     let f := if op == "forbes" then forbesF else jaccardF
-    pure (reply (Json.mkObj [("bits", bitsOf (f tm))]) (some (Json.mkObj [("bits", bitsOf (f ts))])))
+    -- `jaccard`/`forbes` feed each operand through `MultiStream`/`groupby`, which raises on a table with no
+    -- entries at all (known finding `jaccard:empty-operand-raises-ValueError`); `Geometry.jaccard` does not
+    let emptyOperand ← chroms.foldlM (fun (acc : Bool × Bool) c => do
+      let A ← getIvs c "a"
+      let B ← getIvs c "b"
+      pure (acc.1 && A.isEmpty, acc.2 && B.isEmpty)) (true, true)
+    let m := if op != "geo_jaccard" && (emptyOperand.1 || emptyOperand.2)
+      then Json.mkObj [("err", str "other:ValueError")] else Json.mkObj [("bits", bitsOf (f tm))]
+    pure (reply m (some (Json.mkObj [("bits", bitsOf (f ts))])))
   | "clip" | "geo_clip" =>
     let st ← getIntList j "start"
     let sp ← getIntList j "stop"
